@@ -204,6 +204,20 @@ theorem gen_lopoMode :
     Gen.C08.lopoMode_sends = ["self.crazyflie.loc.send_short_lpp_packet(anchor_id, data)"] := by decide
 
 
+/-- the methods of the anchored classes that hand a packet to the link are exactly the ones `emit` models
+(plus the two protocol-version handshake requests of PlatformService, which are not commands) -/
+theorem gen_emitters :
+    Gen.C08.emitters_Commander = ["send_setpoint", "send_notify_setpoint_stop", "send_stop_setpoint", "send_velocity_world_setpoint",
+      "send_zdistance_setpoint", "send_hover_setpoint", "send_full_state_setpoint", "send_position_setpoint"] ∧
+    Gen.C08.emitters_HighLevelCommander = ["set_group_mask", "takeoff", "land", "stop", "go_to", "spiral", "start_trajectory",
+      "define_trajectory", "_send_packet"] ∧
+    Gen.C08.emitters_Localization = ["send_extpos", "send_extpose", "send_short_lpp_packet", "send_emergency_stop",
+      "send_emergency_stop_watchdog", "send_lh_persist_data_packet"] ∧
+    Gen.C08.emitters_Extpos = ["send_extpos", "send_extpose"] ∧
+    Gen.C08.emitters_PlatformService = ["set_continous_wave", "send_arming_request", "send_crash_recovery_request",
+      "_request_protocol_version", "_crt_service_callback"] ∧
+    Gen.C08.emitters_LoPoAnchor = ["set_position", "reboot", "set_mode"] := by decide
+
 /-- CRTPPacket: constructor defaults, property setters, header recomputation, size check in Crazyflie.send_packet -/
 theorem gen_packet :
     Gen.C08.pktInitParams = ["self", "header=0", "data=None"] ∧
